@@ -34,7 +34,7 @@ pub enum Regime {
     /// random walk on a price grid (tick = m/4, steps of -2..=2 ticks): exact ties between neighbours and
     /// across a window, new lows/highs arriving among duplicates of the old one — what quantised quotes do
     Ticks,
-    /// a level near the top of a binade (1023.99 * m) with nothing but a few ulps of noise: windows that are
+    /// a level just below a power of two (near 1000 * m) with nothing but a few ulps of noise: windows that are
     /// flat to within rounding, where a difference of two rounded aggregates can come out with the wrong sign
     UlpNoise,
     /// a level with a relative jitter of 1e-8, 1e-10 or 1e-11 (fixed per stream): dispersion far above
@@ -155,7 +155,9 @@ impl BandGen {
                 self.cur * (1.0 + self.dir * (r.below(9) as f64 - 4.0))
             }
             Regime::UlpNoise => {
-                let level = lo * 1023.99;
+                // just below a power of two whatever the band floor is
+                // (and not a dyadic number itself: sums of the window must round)
+                let level = (2.0f64).powi((lo * 1000.0).log2().ceil() as i32) * (1023.99 / 1024.0);
                 f64::from_bits(level.to_bits() - 3 + r.below(7) as u64)
             }
             Regime::Uniform => r.uniform(lo, hi),
